@@ -10,23 +10,19 @@ intermediate duration `t1` is `runSim (cfg.withDuration t1)`; the continuation i
 values the first part left.
 
 Theorems are for ALL configurations (controls, rules, steps, start clock, report step), all start values and all
-pause times; the hypotheses are only: positive hydraulic and rule steps, a legitimate start (`StartOK`: fresh model
-or one left by an earlier run), the pause not before the current time, and at least one hydraulic step left after
-the pause (`t1 + hyd ≤ duration`).  Without the last hypothesis the statement is false of the code (and of the
-model): `run_sim` always performs one pass, so "continuing" a run that is already complete adds a step beyond the
-duration — `run_split_needs_a_step_left` below; see `RunSplitFull` / `run_split_full_counterexample`.
+pause times `t1 ≤ duration` (on or off the hydraulic grid, before or after the current time); the hypotheses are only:
+positive hydraulic and rule steps and a legitimate start (`StartOK`: fresh model or one left by an earlier run).
+
+The model follows the REPAIRED `run_sim` (fixes/C10-completed-run-continued.patch): a model that was already
+simulated up to the requested duration is left alone (`completed_run_is_left_alone`).  Before that repair `run_sim`
+always performed one pass, so continuing a run whose first part had already reached the last hydraulic step before an
+off-grid duration reported a time beyond the duration (5000 s duration, 3600 s steps, pause at 3600 s: the paused run
+reported 0, 3600, 7200; the uninterrupted one 0, 3600) — found by this check, key `restart-extra-step-beyond-duration`.
 -/
 import WntrModel.Lemmas.SchedSplit
 
 namespace Wntr.C10
 open Wntr.Time Wntr.Sched
-
-/-- example configuration: 1 h hydraulic step, 6 min rule step, a time control closing key 0 at 5400 s (off the
-hydraulic grid), a rule opening it again from 9000 s on -/
-def cfgEx : Cfg :=
-  { hyd := 3600, rule := 360, report := 0, duration := 14400, startClock := 0,
-    presolve := [⟨0, 3, .sim ⟨.eq, 5400, 0⟩, [⟨0, 0⟩], []⟩],
-    rules := [⟨1, 3, .sim ⟨.ge, 9000, 0⟩, [⟨0, 1⟩], []⟩] }
 
 /-- the observable outcome of a run: final model state (clock, previous time, element states) and the result rows -/
 structure Outcome where
@@ -45,11 +41,11 @@ def pausedRun (cfg : Cfg) (t1 simTime prevTime : Int) (vals : Vals) : St × List
 
 /-- the state a run leaves is a legitimate start of the next one, with the rule iterator the next run will compute -/
 theorem run_leaves_restartable {cfg : Cfg} (hR : 0 < cfg.rule) (hH : 0 < cfg.hyd) {simTime prevTime : Int} (vals : Vals)
-    (h : StartOK simTime prevTime) :
+    (h : StartOK simTime prevTime) (hleft : ¬ NothingLeft cfg simTime) :
     let s := (runSim cfg simTime prevTime vals).1
     StartOK s.simTime s.prevTime ∧ s.simTime ≠ 0 ∧ s.ruleIter = initRuleIter cfg false s.prevTime ∧
       s.simTime % cfg.hyd = 0 ∧ s.simTime ≤ s.prevTime + cfg.hyd ∧ cfg.duration < s.simTime := by
-  rw [runSim_eq_run hR hH vals h]
+  rw [runSim_eq_run hR hH vals h hleft]
   have hi := startState_inv hR vals h
   have hran := run_ran hR hH (simTime == 0) [] hi
   obtain ⟨f0, s0, h0, heq, hle, _⟩ := run_last hR hH _ (simTime == 0) _ [] hi (le_refl _)
@@ -70,71 +66,129 @@ theorem run_leaves_restartable {cfg : Cfg} (hR : 0 < cfg.rule) (hH : 0 < cfg.hyd
   simp only [initRuleIter, Bool.false_eq_true, if_false]
   exact hran.iter
 
-/-- **`run_split`** — for every configuration, start and pause time `t1` with `simTime ≤ t1` and `t1 + hyd ≤ duration`:
-the paused run (first part to `t1`, continuation by a new simulator object from `(sim_time, _prev_sim_time, element
-states)`) has the same outcome as the uninterrupted run: same rows in the same order, same final clock, previous time
-and element states. -/
-theorem run_split {cfg : Cfg} (hR : 0 < cfg.rule) (hH : 0 < cfg.hyd) {simTime prevTime : Int} (vals : Vals)
-    (h : StartOK simTime prevTime) (t1 : Int) (hstart : simTime ≤ t1) (hleft : t1 + cfg.hyd ≤ cfg.duration) :
-    outcome (pausedRun cfg t1 simTime prevTime vals) = outcome (runSim cfg simTime prevTime vals) := by
-  have hH' : 0 < (cfg.withDuration t1).hyd := hH
-  have hR' : 0 < (cfg.withDuration t1).rule := hR
-  have hi := startState_inv (cfg := cfg) hR vals h
-  -- the first part
-  have hrest := run_leaves_restartable (cfg := cfg.withDuration t1) hR' hH' vals h
-  have e1 := runSim_eq_run (cfg := cfg.withDuration t1) hR' hH' vals h
-  have hst : startState (cfg.withDuration t1) simTime prevTime vals = startState cfg simTime prevTime vals := rfl
-  rw [hst] at e1
-  -- where the first part stops: not beyond t1 + hyd
-  obtain ⟨f0, s0, h0, heq, hle, hor⟩ := run_last (cfg := cfg.withDuration t1) hR' hH' _ (simTime == 0) _ [] (hi.dur t1) (le_refl _)
-  have hs := stepOnce_stepped (cfg := cfg.withDuration t1) hR' hH' f0 h0
-  have hs0 : s0.simTime ≤ t1 := by
-    rcases hor with rfl | h'
-    · exact hstart
-    · simpa using h'
-  have hstop : (run (cfg.withDuration t1) (simTime == 0) (startState cfg simTime prevTime vals) []).1.simTime ≤ cfg.duration := by
-    rw [heq]; have := hs.sim_le; have := hs.prev_le; simp only [withDuration_hyd] at *; omega
-  -- the uninterrupted run, split
-  have e2 := runSim_eq_run hR hH vals h
-  have hsplit := run_split_loop hR hH t1 (by omega) _ (simTime == 0) _ [] hi (le_refl _)
-  rw [if_neg (by omega)] at hsplit
-  -- the continuation by a new simulator
-  unfold pausedRun
-  simp only at hrest
-  rw [e1] at hrest ⊢
-  obtain ⟨hok, hne, hiter, _, _, _⟩ := hrest
-  generalize run (cfg.withDuration t1) (simTime == 0) (startState cfg simTime prevTime vals) [] = p1 at *
-  have e3 := runSim_eq_run hR hH p1.1.vals hok
-  have hb : (p1.1.simTime == 0) = false := by simpa using hne
-  have hp1 : p1.1 = (startState cfg p1.1.simTime p1.1.prevTime p1.1.vals).prepend p1.1.ruleLog := by
+/-- a model already simulated up to the duration is left alone: no rows, same clock, previous time and states -/
+theorem completed_run_is_left_alone {cfg : Cfg} {simTime prevTime : Int} (vals : Vals) (h : NothingLeft cfg simTime) :
+    outcome (runSim cfg simTime prevTime vals) = ⟨simTime, prevTime, vals, []⟩ := by
+  rw [runSim_done prevTime vals h]
+  have hb : (simTime == 0) = false := h.1
+  simp [outcome, startState, hb]
+
+/-- a run by a new simulator from the three values a state carries: the state's own `_rule_iter` and rule log are
+not read (they are re-derived), provided the state is one that a run leaves -/
+theorem restart_from_ran {cfg : Cfg} (hR : 0 < cfg.rule) (hH : 0 < cfg.hyd) {s1 : St} (hran : Ran cfg s1) (hp : 0 ≤ s1.prevTime)
+    (hleft : s1.simTime ≤ cfg.duration) (l1 : List Row) :
+    outcome (run cfg false s1 l1) =
+      ⟨(runSim cfg s1.simTime s1.prevTime s1.vals).1.simTime, (runSim cfg s1.simTime s1.prevTime s1.vals).1.prevTime,
+        (runSim cfg s1.simTime s1.prevTime s1.vals).1.vals, l1 ++ (runSim cfg s1.simTime s1.prevTime s1.vals).2⟩ := by
+  have hlt := hran.inv.lt
+  have hok : StartOK s1.simTime s1.prevTime := Or.inr ⟨hp, hlt⟩
+  have hne : s1.simTime ≠ 0 := by omega
+  have hb : (s1.simTime == 0) = false := by simpa using hne
+  have e3 := runSim_eq_run hR hH s1.vals hok (not_nothingLeft_of_le (Or.inr hleft))
+  have hp1 : s1 = (startState cfg s1.simTime s1.prevTime s1.vals).prepend s1.ruleLog := by
     unfold startState St.prepend
-    simp only [hb, Bool.false_eq_true, if_false, List.append_nil]
-    have hiter' : p1.1.ruleIter = initRuleIter cfg false p1.1.prevTime := hiter
-    rw [← hiter']
-  dsimp only
-  rw [e2, hsplit, e3, hb]
-  generalize startState cfg p1.1.simTime p1.1.prevTime p1.1.vals = S at *
-  generalize p1.1.ruleLog = L at hp1
+    simp only [hb, Bool.false_eq_true, if_false, List.append_nil, initRuleIter]
+    rw [← hran.iter]
+  rw [e3, hb]
+  generalize startState cfg s1.simTime s1.prevTime s1.vals = S at *
+  generalize s1.ruleLog = L at hp1
   rw [hp1]
   unfold run
   have hm : runMeasure cfg (S.prepend L) = runMeasure cfg S := rfl
   rw [runLoop_prepend, hm]
-  have hl : p1.2 = p1.2 ++ [] := by simp
+  have hl : l1 = l1 ++ [] := by simp
   rw [hl, runLoop_log]
   simp [outcome, St.prepend]
 
+/-- **`run_split`** — for every configuration, every legitimate start and EVERY pause time `t1 ≤ duration`: the paused
+run (first part to `t1`, continuation by a new simulator object from `(sim_time, _prev_sim_time, element states)`) has
+the same outcome as the uninterrupted run: same rows in the same order, same final clock, previous time and element
+states. -/
+theorem run_split {cfg : Cfg} (hR : 0 < cfg.rule) (hH : 0 < cfg.hyd) {simTime prevTime : Int} (vals : Vals)
+    (h : StartOK simTime prevTime) (t1 : Int) (ht : t1 ≤ cfg.duration) :
+    outcome (pausedRun cfg t1 simTime prevTime vals) = outcome (runSim cfg simTime prevTime vals) := by
+  have hH' : 0 < (cfg.withDuration t1).hyd := hH
+  have hR' : 0 < (cfg.withDuration t1).rule := hR
+  unfold pausedRun
+  by_cases hn1 : NothingLeft (cfg.withDuration t1) simTime
+  · -- the pause lies before the current time: the first part does nothing
+    rw [runSim_done prevTime vals hn1]
+    have hb : (simTime == 0) = false := hn1.1
+    have e : (startState (cfg.withDuration t1) simTime prevTime vals).prevTime = prevTime := by
+      unfold startState; simp [hb]
+    have e2 : (startState (cfg.withDuration t1) simTime prevTime vals).simTime = simTime := rfl
+    have e3 : (startState (cfg.withDuration t1) simTime prevTime vals).vals = vals := rfl
+    simp only [e, e2, e3, List.nil_append]
+  · have hnT : ¬ NothingLeft cfg simTime := by
+      intro hc
+      apply hn1
+      exact ⟨hc.1, by
+        have : ¬ ((simTime == 0) = false ∧ simTime > t1) := hn1
+        have h2 := hc.2
+        by_contra hle
+        -- simTime ≤ t1 ≤ duration < simTime
+        have : simTime ≤ t1 := by simpa using hle
+        omega⟩
+    have hi := startState_inv (cfg := cfg) hR vals h
+    have e1 := runSim_eq_run (cfg := cfg.withDuration t1) hR' hH' vals h hn1
+    have hst : startState (cfg.withDuration t1) simTime prevTime vals = startState cfg simTime prevTime vals := rfl
+    rw [hst] at e1
+    have e2 := runSim_eq_run hR hH vals h hnT
+    have hsplit := run_split_loop hR hH t1 ht _ (simTime == 0) _ [] hi (le_refl _)
+    have hran1 : Ran cfg (run (cfg.withDuration t1) (simTime == 0) (startState cfg simTime prevTime vals) []).1 :=
+      (run_ran (cfg := cfg.withDuration t1) hR' hH' (simTime == 0) [] (hi.dur t1)).undur
+    obtain ⟨f0, s0, h0, heq, hle, _⟩ := run_last (cfg := cfg.withDuration t1) hR' hH' _ (simTime == 0) _ [] (hi.dur t1) (le_refl _)
+    have hs := stepOnce_stepped (cfg := cfg.withDuration t1) hR' hH' f0 h0
+    have hp0 : -1 ≤ (startState cfg simTime prevTime vals).prevTime := by
+      unfold startState
+      by_cases h0' : simTime = 0
+      · subst h0'; simp
+      · have hb : (simTime == 0) = false := by simpa using h0'
+        rcases h with h | ⟨hp, _⟩
+        · exact absurd h h0'
+        · simp only [hb, Bool.false_eq_true, if_false]; omega
+    have hprev : 0 ≤ (run (cfg.withDuration t1) (simTime == 0) (startState cfg simTime prevTime vals) []).1.prevTime := by
+      rw [heq]; have := hs.prev_gt; omega
+    rw [e1, e2, hsplit]
+    generalize run (cfg.withDuration t1) (simTime == 0) (startState cfg simTime prevTime vals) [] = p1 at *
+    dsimp only
+    by_cases hstop : p1.1.simTime > cfg.duration
+    · -- the first part already passed the duration: the continuation has nothing left to do
+      rw [if_pos hstop]
+      have hne : p1.1.simTime ≠ 0 := by have := hran1.inv.lt; omega
+      have hb : (p1.1.simTime == 0) = false := by simpa using hne
+      have hn2 : NothingLeft cfg p1.1.simTime := ⟨hb, hstop⟩
+      rw [runSim_done p1.1.prevTime p1.1.vals hn2]
+      simp [outcome, startState, hb]
+    · rw [if_neg hstop]
+      rw [restart_from_ran hR hH hran1 hprev (by omega) p1.2]
+      simp [outcome]
+
+/-- example configuration: 1 h hydraulic step, 6 min rule step, a time control closing key 0 at 5400 s (off the
+hydraulic grid), a rule opening it again from 9000 s on -/
+def cfgEx : Cfg :=
+  { hyd := 3600, rule := 360, report := 0, duration := 14400, startClock := 0,
+    presolve := [⟨0, 3, .sim ⟨.eq, 5400, 0⟩, [⟨0, 0⟩], []⟩],
+    rules := [⟨1, 3, .sim ⟨.ge, 9000, 0⟩, [⟨0, 1⟩], []⟩] }
+
 example : outcome (pausedRun cfgEx 3600 0 (-1) [(0, 1)]) = outcome (runSim cfgEx 0 (-1) [(0, 1)]) :=
-  run_split (by decide) (by decide) _ (Or.inl rfl) 3600 (by decide) (by decide)
+  run_split (by decide) (by decide) _ (Or.inl rfl) 3600 (by decide)
 
 /-- the rows of the example, split at 3600 s: the continuation starts with the partial step at 5400 s -/
 example : (runSim (cfgEx.withDuration 3600) 0 (-1) [(0, 1)]).2.map (·.time) = [0, 3600] ∧
     (runSim cfgEx 7200 3600 [(0, 1)]).2.map (·.time) = [5400, 7200, 9000, 10800, 14400] := by decide
 
+/-- the witness that was a counterexample before the repair: duration 5000 s off the 3600 s grid, pause at 3600 s -/
+def cfgOff : Cfg := { hyd := 3600, rule := 360, report := 0, duration := 5000, startClock := 0, presolve := [], rules := [] }
+
+example : (runSim cfgOff 0 (-1) []).2.map (·.time) = [0, 3600] ∧
+    (pausedRun cfgOff 3600 0 (-1) []).2.map (·.time) = [0, 3600] := by decide
+
 /-- **the continuation never revisits earlier times**: every row of the continuation is strictly later than the last
 accepted time of the first part (hence than all its rows), and rows are strictly increasing; when the pause time is on
 the hydraulic grid that last accepted time is `≥ t1`, so the continuation's first row is `> t1` -/
 theorem continuation_after_pause {cfg : Cfg} (hR : 0 < cfg.rule) (hH : 0 < cfg.hyd) {simTime prevTime : Int} (vals : Vals)
-    (h : StartOK simTime prevTime) (t1 : Int) :
+    (h : StartOK simTime prevTime) (t1 : Int) (hstart : simTime ≤ t1) :
     let p1 := runSim (cfg.withDuration t1) simTime prevTime vals
     let p2 := runSim cfg p1.1.simTime p1.1.prevTime p1.1.vals
     (∀ r ∈ p1.2, r.time ≤ p1.1.prevTime) ∧ (∀ r ∈ p2.2, p1.1.prevTime < r.time) ∧
@@ -142,24 +196,30 @@ theorem continuation_after_pause {cfg : Cfg} (hR : 0 < cfg.rule) (hH : 0 < cfg.h
       (t1 % cfg.hyd = 0 → t1 ≤ p1.1.prevTime) := by
   have hH' : 0 < (cfg.withDuration t1).hyd := hH
   have hR' : 0 < (cfg.withDuration t1).rule := hR
-  have hrest := run_leaves_restartable (cfg := cfg.withDuration t1) hR' hH' vals h
+  have hn1 : ¬ NothingLeft (cfg.withDuration t1) simTime := not_nothingLeft_of_le (Or.inr (by simpa using hstart))
+  have hrest := run_leaves_restartable (cfg := cfg.withDuration t1) hR' hH' vals h hn1
   simp only at hrest
   obtain ⟨hok, hne, _, hgrid, hsimle, hexit⟩ := hrest
   have hrows1 := run_rows (cfg := cfg.withDuration t1) hR' hH' (simTime == 0) (startState_inv hR' vals h)
-  rw [← runSim_eq_run (cfg := cfg.withDuration t1) hR' hH' vals h] at hrows1
+  rw [← runSim_eq_run (cfg := cfg.withDuration t1) hR' hH' vals h hn1] at hrows1
   simp only
   generalize runSim (cfg.withDuration t1) simTime prevTime vals = p1 at *
-  have hrows2 := run_rows hR hH (p1.1.simTime == 0) (startState_inv hR p1.1.vals hok)
-  rw [← runSim_eq_run hR hH p1.1.vals hok] at hrows2
   have hb : (p1.1.simTime == 0) = false := by simpa using hne
-  have hprev : (startState cfg p1.1.simTime p1.1.prevTime p1.1.vals).prevTime = p1.1.prevTime := by
-    unfold startState; simp [hb]
-  rw [hprev] at hrows2
-  refine ⟨fun r hr => (hrows1.1 r hr).2, fun r hr => (hrows2.1 r hr).1, ?_, ?_⟩
+  have hrows2 : (∀ r ∈ (runSim cfg p1.1.simTime p1.1.prevTime p1.1.vals).2, p1.1.prevTime < r.time) ∧
+      ((runSim cfg p1.1.simTime p1.1.prevTime p1.1.vals).2).Pairwise (fun a b => a.time < b.time) := by
+    by_cases hn2 : NothingLeft cfg p1.1.simTime
+    · rw [runSim_done _ _ hn2]; simp
+    · have hr := run_rows hR hH (p1.1.simTime == 0) (startState_inv hR p1.1.vals hok)
+      rw [← runSim_eq_run hR hH p1.1.vals hok hn2] at hr
+      have hprev : (startState cfg p1.1.simTime p1.1.prevTime p1.1.vals).prevTime = p1.1.prevTime := by
+        unfold startState; simp [hb]
+      rw [hprev] at hr
+      exact ⟨fun r hr' => (hr.1 r hr').1, hr.2⟩
+  refine ⟨fun r hr => (hrows1.1 r hr).2, hrows2.1, ?_, ?_⟩
   · rw [List.pairwise_append]
     refine ⟨hrows1.2, hrows2.2, ?_⟩
     intro a ha b hb'
-    have := (hrows1.1 a ha).2; have := (hrows2.1 b hb').1; omega
+    have := (hrows1.1 a ha).2; have := hrows2.1 b hb'; omega
   · intro ht
     simp only [withDuration_hyd, withDuration_duration] at hgrid hsimle hexit
     have hd : cfg.hyd ∣ p1.1.simTime - t1 := by
@@ -176,54 +236,43 @@ def runPaused (cfg : Cfg) : List Int → Int → Int → Vals → St × List Row
     let r := runPaused cfg ts p.1.simTime p.1.prevTime p.1.vals
     (r.1, p.2 ++ r.2)
 
-/-- pause times that leave at least one hydraulic step between consecutive pauses and before the end -/
-def PausesOK (cfg : Cfg) : Int → List Int → Prop
-  | _, [] => True
-  | cur, t :: ts => cur ≤ t ∧ t + cfg.hyd ≤ cfg.duration ∧ PausesOK cfg (t + cfg.hyd) ts
+/-- the state any run leaves — also the run that had nothing to do — is a legitimate start -/
+theorem run_leaves_startOK {cfg : Cfg} (hR : 0 < cfg.rule) (hH : 0 < cfg.hyd) {simTime prevTime : Int} (vals : Vals)
+    (h : StartOK simTime prevTime) :
+    StartOK (runSim cfg simTime prevTime vals).1.simTime (runSim cfg simTime prevTime vals).1.prevTime := by
+  by_cases hn : NothingLeft cfg simTime
+  · rw [runSim_done prevTime vals hn]
+    have hb : (simTime == 0) = false := hn.1
+    have hne : simTime ≠ 0 := by simpa using hb
+    rcases h with h | h
+    · exact absurd h hne
+    · right; unfold startState; simpa [hb] using h
+  · exact (run_leaves_restartable hR hH vals h hn).1
 
-/-- **`run_split` for any list of pauses** (induction over the list, `run_split` at every stage) -/
+/-- **`run_split` for any list of pauses** `≤ duration`, in any order (induction over the list, `run_split` at every
+stage; a pause that lies before the current time is a part that does nothing) -/
 theorem run_split_many {cfg : Cfg} (hR : 0 < cfg.rule) (hH : 0 < cfg.hyd) (ts : List Int) :
-    ∀ {simTime prevTime : Int} (vals : Vals), StartOK simTime prevTime → PausesOK cfg simTime ts →
+    ∀ {simTime prevTime : Int} (vals : Vals), StartOK simTime prevTime → (∀ t ∈ ts, t ≤ cfg.duration) →
       outcome (runPaused cfg ts simTime prevTime vals) = outcome (runSim cfg simTime prevTime vals) := by
   induction ts with
   | nil => intro _ _ _ _ _; rfl
   | cons t ts ih =>
     intro simTime prevTime vals h hp
-    obtain ⟨h1, h2, h3⟩ := hp
-    have hsplit := run_split hR hH vals h t h1 h2
+    have hsplit := run_split hR hH vals h t (hp t List.mem_cons_self)
     have hH' : 0 < (cfg.withDuration t).hyd := hH
     have hR' : 0 < (cfg.withDuration t).rule := hR
-    have hrest := run_leaves_restartable (cfg := cfg.withDuration t) hR' hH' vals h
-    simp only at hrest
-    obtain ⟨hok, _, _, _, _, _⟩ := hrest
-    -- the first part stops at most one hydraulic step after t
-    have hi := startState_inv (cfg := cfg.withDuration t) hR' vals h
-    obtain ⟨f0, s0, h0, heq, _, hor⟩ := run_last (cfg := cfg.withDuration t) hR' hH' _ (simTime == 0) _ [] hi (le_refl _)
-    have hs := stepOnce_stepped (cfg := cfg.withDuration t) hR' hH' f0 h0
-    have hs0 : s0.simTime ≤ t := by
-      rcases hor with rfl | h'
-      · exact h1
-      · simpa using h'
-    have hstop : (runSim (cfg.withDuration t) simTime prevTime vals).1.simTime ≤ t + cfg.hyd := by
-      rw [runSim_eq_run (cfg := cfg.withDuration t) hR' hH' vals h, heq]
-      have := hs.sim_le; have := hs.prev_le; simp only [withDuration_hyd] at *; omega
-    have hmono : ∀ (a b : Int) (l : List Int), a ≤ b → PausesOK cfg b l → PausesOK cfg a l := by
-      intro a b l hab hl
-      cases l with
-      | nil => trivial
-      | cons x xs => exact ⟨by have := hl.1; omega, hl.2.1, hl.2.2⟩
+    have hok := run_leaves_startOK (cfg := cfg.withDuration t) hR' hH' vals h
     have hih := ih (simTime := (runSim (cfg.withDuration t) simTime prevTime vals).1.simTime)
       (prevTime := (runSim (cfg.withDuration t) simTime prevTime vals).1.prevTime)
-      (runSim (cfg.withDuration t) simTime prevTime vals).1.vals hok (hmono _ _ _ hstop h3)
+      (runSim (cfg.withDuration t) simTime prevTime vals).1.vals hok (fun x hx => hp x (List.mem_cons_of_mem _ hx))
     rw [← hsplit]
     unfold runPaused pausedRun
     simp only [outcome] at hih ⊢
     simp only [Outcome.mk.injEq] at hih ⊢
     exact ⟨hih.1, hih.2.1, hih.2.2.1, by rw [hih.2.2.2]⟩
 
-example : PausesOK cfgEx 0 [0, 3600, 7200] := by simp [PausesOK, cfgEx]
 example : outcome (runPaused cfgEx [0, 3600, 7200] 0 (-1) [(0, 1)]) = outcome (runSim cfgEx 0 (-1) [(0, 1)]) :=
-  run_split_many (by decide) (by decide) _ _ (Or.inl rfl) (by simp [PausesOK, cfgEx])
+  run_split_many (by decide) (by decide) _ _ (Or.inl rfl) (by decide)
 
 /-- **`pickle_transparent`** (model level): the continuation reads nothing of the paused run but the clock, the
 previous time and the element states — the simulator object's own `_rule_iter` and its results are rebuilt; so any
@@ -233,32 +282,5 @@ theorem pickle_transparent (cfg : Cfg) (a b : St) (h1 : a.simTime = b.simTime) (
     (h3 : a.vals = b.vals) :
     runSim cfg a.simTime a.prevTime a.vals = runSim cfg b.simTime b.prevTime b.vals := by
   rw [h1, h2, h3]
-
-/-- the full statement with the pause anywhere below the duration -/
-def RunSplitFull : Prop :=
-  ∀ (cfg : Cfg), 0 < cfg.rule → 0 < cfg.hyd → ∀ (vals : Vals) (t1 : Int), 0 ≤ t1 → t1 % cfg.hyd = 0 → t1 < cfg.duration →
-    outcome (pausedRun cfg t1 0 (-1) vals) = outcome (runSim cfg 0 (-1) vals)
-
-/-- a duration off the hydraulic grid with the pause on the last grid point before it: the first part already ran the
-last step, yet the continuation performs one more pass (`run_sim` is a do-while loop) and reports a time beyond the
-duration -/
-def cfgOff : Cfg := { hyd := 3600, rule := 360, report := 0, duration := 5000, startClock := 0, presolve := [], rules := [] }
-
-theorem run_split_needs_a_step_left :
-    (runSim cfgOff 0 (-1) []).2.map (·.time) = [0, 3600] ∧
-    (pausedRun cfgOff 3600 0 (-1) []).2.map (·.time) = [0, 3600, 7200] := by decide
-
-theorem run_split_full_counterexample : ¬ RunSplitFull := by
-  intro h
-  have := h cfgOff (by decide) (by decide) [] 3600 (by decide) (by decide) (by decide)
-  have h2 := congrArg (fun o => o.rows.map (·.time)) this
-  revert h2
-  decide
-
-/-- `run_split` is the partial statement under the excluding hypothesis `t1 + hyd ≤ duration` -/
-theorem run_split_partial {cfg : Cfg} (hR : 0 < cfg.rule) (hH : 0 < cfg.hyd) (vals : Vals) (t1 : Int) (h0 : 0 ≤ t1)
-    (hleft : t1 + cfg.hyd ≤ cfg.duration) :
-    outcome (pausedRun cfg t1 0 (-1) vals) = outcome (runSim cfg 0 (-1) vals) :=
-  run_split hR hH vals (Or.inl rfl) t1 h0 hleft
 
 end Wntr.C10
